@@ -41,6 +41,9 @@ def setup(so_path=None):
     import dask
 
     dask.config.set(scheduler="synchronous")  # z3's Python API is not thread safe
+    from vt.symreal.stubs import scipy_special_vocabulary
+
+    scipy_special_vocabulary()  # before the import: `from scipy.special import gammaln` must bind the wrapper
     import wavespectra  # noqa: F401
 
     if so_path:
